@@ -71,4 +71,5 @@ pub mod verif_shim {
     pub use super::pointers::verif_shim_ptr::*;
     pub use super::sync::list::verif_shim_list::*;
     pub use super::sync::queue::verif_shim_queue::*;
+    pub use super::sync::once_lock::verif_shim::*;
 }
